@@ -132,10 +132,69 @@ def class_sweep(ctx):
         ctx.violation("ops", "\n".join(body), True)
 
 
+WR_CLASSES = ["w32", "w16d", "u32", "b3", "u64", "loud", "zd", "unit"]
+WR_DROP = {"w16d", "loud", "zd"}
+
+
+def write_readback_sweep(ctx):
+    """build uninitialised, write every slot, read back through `as_mut_ptr` and — after `assume_init*` — through the initialised
+    handle, then drop; for every element class incl. OVER-ALIGNED ones (data offset 16 / 32) and length 0; dev and release profile.
+    The model (generic in the values and in the layout: M2 `dataAddr`, Props/C15.lean) says: what was written is what is seen, at the
+    address `Deref` yields; the block is requested with the type's alignment and released with the layout it was requested with;
+    each written element with drop glue is destroyed exactly once, with the block."""
+    import subprocess
+    from vlib import common
+    cases = [(t, k, n) for t in WR_CLASSES for k in ("arc", "uniq") for n in (1,)] + \
+            [(t, k, n) for t in WR_CLASSES for k in ("slice", "hs", "arcslice") for n in (0, 1, 3)]
+    text = "".join("wr %s %s %d\n" % c for c in cases)
+    bad, ran = [], 0
+    for rel in (False, True):
+        exe, out = common.cargo_build_bin(ctx, "uninit", release=rel)
+        if exe is None:
+            ctx.oblige("corr:uninit-write-readback-build", False, out[-1500:])
+            ctx.defer_nfi("the uninit class sweep harness does not build against this tree:\n" + out[-2500:])
+            return
+        pr = subprocess.run([exe], input=text, capture_output=True, text=True, timeout=180)
+        lines = pr.stdout.split("\n")
+        for i, (t, k, n) in enumerate(cases):
+            l = lines[i] if i < len(lines) and lines[i] else "st=crash(rc=%s)" % pr.returncode
+            ran += 1
+            kv = dict(x.split("=", 1) for x in l.split() if "=" in x)
+            why = []
+            if kv.get("st") != "ok":
+                why.append("status %s (these constructors accept every length and element class here)" % kv.get("st"))
+            else:
+                if kv.get("val") != kv.get("want") or kv.get("raw") != kv.get("want"):
+                    why.append("what was written (%s) is not what is read back (through as_mut_ptr: %s, after assume_init: %s)" % (kv.get("want"), kv.get("raw"), kv.get("val")))
+                if kv.get("ptr_ok") != "1":
+                    why.append("as_mut_ptr is not the address the value lives at")
+                want_drops = (n if k in ("slice", "hs") else (1 if k in ("arc", "uniq") else 0)) if t in WR_DROP else 0
+                if kv.get("edrop") != str(want_drops):
+                    why.append("%s element destructor run(s), expected %d" % (kv.get("edrop"), want_drops))
+            if kv.get("never_freed", "0") != "0" or kv.get("freed_twice", "0") != "0":
+                why.append("the block was not returned exactly once (never_freed=%s freed_twice=%s)" % (kv.get("never_freed"), kv.get("freed_twice")))
+            if kv.get("wrong_layout", "0") != "0":
+                why.append("the block was released with a layout other than the requested one")
+            if kv.get("st") == "ok" and kv.get("block_align", "0").isdigit() and int(kv["block_align"]) < int(kv.get("type_align", "0")) and int(kv["block_align"]) > 0:
+                why.append("the block was requested with alignment %s, the element type needs %s" % (kv["block_align"], kv["type_align"]))
+            if why:
+                bad.append(("wr %s %s %d" % (t, k, n), "release" if rel else "dev", l, why))
+    ctx.coverage["uninit_write_readback"] = {"cases": ran, "classes": WR_CLASSES, "failures": len(bad)}
+    ctx.coverage["evaluations"] = ctx.coverage.get("evaluations", 0) + ran
+    ctx.oblige("corr:uninit-write-readback", not bad, "%d failing" % len(bad))
+    if bad:
+        body = ["uninitialised construction, write, read back, assume_init, drop — over element classes incl. over-aligned ones and length 0:", ""]
+        for ln, prof, l, why in bad[:8]:
+            body += ["case : %s   [%s profile]" % (ln, prof), "  impl : " + l, "  PROPERTY C15 FAILS: " + "; ".join(why), ""]
+        body.append("replay: printf '<case line>\\n' | <harness bin uninit>")
+        ctx.violation("ops", "\n".join(body), True)
+
+
 def run(ctx):
     histcheck.run(ctx, MODULE, WEIGHTS, TAGS, lean_extra=EXTRA,
                   release_quick_filter=lambda h: any(op.split()[0] in ('writeSlot',) for op in h))
     class_sweep(ctx)
+    write_readback_sweep(ctx)
     # the last handle of an uninit-built allocation is released while the header's / an element's destructor panics: the header
     # is still destroyed exactly once, the elements (after assume_init) each once, "together with the allocation"
     from vlib.props import c05
